@@ -8,7 +8,7 @@ from pathlib import Path
 
 PROPERTY = "C16"
 CONTRACTS = ["contracts.c16"]
-LEVEL = "exploration"
+LEVEL = "other"
 EXPLANATION = (
     "Contract-based: init_from_template is verified over the file-system model (A-FS) with path helpers and jinja rendering "
     "as assumed contracts: an existing target is left untouched unless overwriting is requested (no write at all), otherwise "
